@@ -290,19 +290,40 @@ impl Case {
 }
 
 // ------------------------------------------------------------------ scripted source
+/// A STRICT source: tonic's encoder must never poll its message source again once it has
+/// answered Ready(None) (a legal stream may panic then - futures `unfold` does - or produce
+/// further items).  Every poll after the end is counted; it is answered with a poison item or,
+/// in panic mode, with a panic.
+static POLLED_AFTER_END: AtomicUsize = AtomicUsize::new(0);
+static STRICT_PANICS: std::sync::atomic::AtomicBool = std::sync::atomic::AtomicBool::new(false);
 struct Script<M> {
     evs: VecDeque<Option<M>>,
+    ended: bool,
+    poison: Option<M>,
 }
-impl<M: Unpin> Stream for Script<M> {
+impl<M: Unpin + Clone> Stream for Script<M> {
     type Item = Result<M, Status>;
     fn poll_next(mut self: Pin<&mut Self>, cx: &mut Context<'_>) -> Poll<Option<Self::Item>> {
+        if self.ended {
+            POLLED_AFTER_END.fetch_add(1, Ordering::SeqCst);
+            if STRICT_PANICS.load(Ordering::SeqCst) {
+                panic!("the message source was polled again after it had returned None");
+            }
+            return match self.poison.clone() {
+                Some(m) => Poll::Ready(Some(Ok(m))),
+                None => Poll::Ready(Some(Err(Status::data_loss("the message source was polled again after it had returned None")))),
+            };
+        }
         match self.evs.pop_front() {
             Some(None) => {
                 cx.waker().wake_by_ref();
                 Poll::Pending
             }
             Some(Some(m)) => Poll::Ready(Some(Ok(m))),
-            None => Poll::Ready(None),
+            None => {
+                self.ended = true;
+                Poll::Ready(None)
+            }
         }
     }
 }
@@ -342,10 +363,12 @@ where
 fn encode_with<E>(enc: E, src: Vec<Option<E::Item>>, c: &Case, max: Option<usize>) -> Result<(Vec<Fr>, bool), String>
 where
     E: Encoder<Error = Status> + Send + 'static,
-    E::Item: Unpin + Send + 'static,
+    E::Item: Unpin + Clone + Send + 'static,
 {
     let budget = src.len() + 3;
-    let script = Script { evs: src.into_iter().collect() };
+    // the poison item is a copy of the last message (a distinct value cannot be made for every codec)
+    let poison = src.iter().rev().flatten().next().cloned();
+    let script = Script { evs: src.into_iter().collect(), ended: false, poison };
     let comp = c.comp.map(|e| e.tonic());
     if c.server {
         if c.override_disable {
@@ -499,6 +522,8 @@ impl WireCache {
         if let Some(p) = self.0.get(&(e, m.to_vec())) {
             return p.clone();
         }
+        // the probe must not die in panic mode (it is not what is being judged)
+        let was = STRICT_PANICS.swap(false, Ordering::SeqCst);
         let probe = Case { prost: false, comp: e, override_disable: false, max: None, bs: (8192, 32768), server: false, dmax: None, src: vec![], cuts: vec![], pend: vec![] };
         let (frames, _) = encode_with(RawEnc(BufferSettings::new(8192, 32768)), vec![Some(m.to_vec())], &probe, None).expect("probe");
         let mut data = vec![];
@@ -508,12 +533,13 @@ impl WireCache {
             }
         }
         let fr = split_frames(&data);
-        assert_eq!(fr.len(), 1, "probe: one frame");
+        assert!(!fr.is_empty(), "probe: a frame");
         let p = fr[0].1.clone();
         if let Some(e) = e {
             assert_eq!(e.decompress(&p).as_deref(), Some(m), "probe: the library inflates the payload to the message");
         }
         self.0.insert((e, m.to_vec()), p.clone());
+        STRICT_PANICS.store(was, Ordering::SeqCst);
         p
     }
 }
@@ -556,6 +582,9 @@ fn run_case(out: &mut Out, wc: &mut WireCache, kind: &str, c: &Case) {
     let fuel_script = |n_events: usize| n_events + msgs.len() + 3;
     // ---- implementation
     let mut oracle: Option<String> = None;
+    POLLED_AFTER_END.store(0, Ordering::SeqCst);
+    // alternate: poison items / a panic when the finished source is polled again
+    STRICT_PANICS.store((msgs.len() + c.cuts.len() + c.pend.len()) % 2 == 1, Ordering::SeqCst);
     let (frames, trace, drained): (Vec<Fr>, Vec<R<Vec<u8>>>, bool);
     // second encoding run: no Pending in the source, other buffer settings
     let alt_bs = if c.bs == (8192, 32768) { BufferSettings::new(1, 0) } else { BufferSettings::new(8192, 32768) };
@@ -618,6 +647,11 @@ fn run_case(out: &mut Out, wc: &mut WireCache, kind: &str, c: &Case) {
         drained = dr;
     }
     let wire = data_of(&frames);
+    let polled_after_end = POLLED_AFTER_END.load(Ordering::SeqCst);
+    if oracle.is_none() && polled_after_end > 0 {
+        oracle = Some(format!("the encoder polled its message source {} time(s) after the source had returned None", polled_after_end));
+    }
+    out.hist(&format!("{}.strict_source_mode", kind.split('.').next().unwrap_or("c01")), if STRICT_PANICS.load(Ordering::SeqCst) { "panic after end" } else { "poison after end" });
     // ---- the property's direct verdict
     let enc_limit = c.max.unwrap_or(usize::MAX);
     let dec_limit = c.dmax.unwrap_or(DEFAULT_DEC_LIMIT);
@@ -1353,6 +1387,39 @@ fn c06_enc_cases(out: &mut Out, wc: &mut WireCache, r: &mut Rng, thorough: bool)
         }
     }
 }
+/// limits that do not fit a u32: a limit stored in 32 bits wraps (2^32 -> 0, 2^32+16 -> 16, ...)
+const BIG_LIMITS: [usize; 7] = [u32::MAX as usize, 1 << 32, (1 << 32) + 16, (1 << 33) + 5, 1 << 63, usize::MAX - 1, usize::MAX];
+fn c06_big_limit_cases(out: &mut Out, wc: &mut WireCache, r: &mut Rng) {
+    for &l in &BIG_LIMITS {
+        // small messages around the values the limit would wrap to
+        let msgs: Vec<Msg> = [0usize, 1, 5, 6, 16, 17, 100].iter().map(|n| if *n >= 64 { Msg::Rep(*n, 3) } else { Msg::Lit(vec![0x41; *n]) }).collect();
+        for server in [true, false] {
+            // the receiving limit
+            let mut c = Case { prost: false, comp: None, override_disable: false, max: None, bs: (8192, 32768), server, dmax: Some(l), src: vec![], cuts: vec![], pend: vec![] };
+            let fl = wire_len(wc, None, &msgs);
+            c.cuts = random_cuts(r, &fl);
+            c.src = gen_src(r, msgs.clone());
+            run_case(out, wc, "c06.dec_rt_big_limit", &c);
+            // the sending limit
+            let mut c = Case { prost: false, comp: None, override_disable: false, max: Some(l), bs: (8192, 32768), server, dmax: None, src: vec![], cuts: vec![], pend: vec![] };
+            c.cuts = random_cuts(r, &fl);
+            c.src = gen_src(r, msgs.clone());
+            run_case(out, wc, "c06.enc_big_limit", &c);
+            // both, compressed
+            let e = *r.pick(&ENCS);
+            let mut c = Case { prost: false, comp: Some(e), override_disable: false, max: Some(l), bs: (8192, 32768), server, dmax: Some(l), src: vec![], cuts: vec![], pend: vec![] };
+            c.src = gen_src(r, msgs.clone());
+            run_case(out, wc, "c06.big_limit_z", &c);
+        }
+        // raw Streaming: declared small lengths with their complete payload under a big limit
+        for d in [0u64, 1, 16, 17, 2048] {
+            for request in [true, false] {
+                let c = DecCase { request, enc: None, flag: 0, max: Some(l), declared: d, present: d as usize, cuts: vec![r.range(1, 4) as usize], pend: vec![r.below(2) as usize, 0] };
+                run_declared(out, "c06.declared_big_limit", &c);
+            }
+        }
+    }
+}
 fn c06_declared_cases(out: &mut Out, r: &mut Rng, thorough: bool, first_round: bool) {
     let limits: Vec<Option<usize>> = vec![Some(0), Some(1), Some(5), Some(100), Some(1024), None];
     for max in limits {
@@ -1491,6 +1558,9 @@ fn main() {
             for round in 0..rounds {
                 c06_enc_cases(&mut out, &mut wc, &mut r, a.thorough);
                 c06_declared_cases(&mut out, &mut r, a.thorough, round == 0);
+                if round < 2 {
+                    c06_big_limit_cases(&mut out, &mut wc, &mut r);
+                }
             }
         }
     }
